@@ -35,7 +35,7 @@ ALL = list(itertools.product(range(5), repeat=3))
 
 
 def gen_cases(tier, seed):
-    n = 64 if tier == "quick" else 1200
+    n = 128 if tier == "quick" else 1200
     rng0 = bases.rng_for("C06", seed, tier, "orders")
     pool = []
     while len(pool) < 2 * n + 8:
